@@ -242,6 +242,8 @@ struct Sess {
     stop: bool,
     max_stamp: i64,
     double_free: bool, // remove / remove_subtree was called on an id whose slot is free: outside every contract
+    ref_live: bool,    // still inside the fragment on which the refinement to the forest model is checked
+    ref_checked: usize,
 }
 
 #[derive(Clone, Copy, PartialEq)]
@@ -261,7 +263,7 @@ impl Sess {
         for k in 0..8u32 { f.push(other.new_node(2000 + k)); }
         let _ = rng;
         Sess { a: Arena::new(), ids: vec![], foreign: f, removed_seen: vec![], reqs: vec![], resps: vec![],
-            corrupt_steps: 0, stop: false, max_stamp: 0, double_free: false }
+            corrupt_steps: 0, stop: false, max_stamp: 0, double_free: false, ref_live: true, ref_checked: 0 }
     }
 
     fn classify(&self, id: NodeId) -> Class {
@@ -301,6 +303,15 @@ impl Sess {
         let mut out: Vec<Option<NodeId>> = vec![None; self.a.count()];
         for id in &self.ids { let i: usize = (*id).into(); if i <= out.len() { out[i - 1] = Some(*id); } }
         out.into_iter().flatten().collect()
+    }
+
+    /// A mutating call is about to be recorded: does the run-time refinement check (`arena refine`)
+    /// cover it?  It does while every mutating call so far had live arguments and stayed inside
+    /// the forest model's list semantics.
+    fn ref_note(&mut self, all_live: bool, leaves: bool) {
+        if self.ref_live {
+            if !all_live || leaves { self.ref_live = false; } else { self.ref_checked += 1; }
+        }
     }
 
     fn push(&mut self, req: String, resp: String) {
@@ -449,6 +460,7 @@ fn step(s: &mut Sess, rng: &mut Rng, sink: &mut Sink, w: [usize; 4], cap: usize,
             s.ids.push(id);
             let (_, st) = id_parts(id);
             if st > 0 { sink.stat("new.reused-slot"); }
+            s.ref_note(true, false);
             s.push(format!("new {}", v), format!("ok {} {}", wid(id), dump(&s.a)));
             s.after_mutation(sink, "new");
         }
@@ -462,6 +474,7 @@ fn step(s: &mut Sess, rng: &mut Rng, sink: &mut Sink, w: [usize; 4], cap: usize,
                 if !terminates(&s.a, move |a| call1(&o, x, a)) {
                     sink.stat(&format!("diverge.{}.{}", op, class_name(cx)));
                     // the loop never ends: the model must say so; the arena reached is not observable
+                    s.ref_live = false;
                     s.push(format!("div {}", req), "diverge".to_string());
                     s.stop = true;
                     return;
@@ -469,6 +482,7 @@ fn step(s: &mut Sess, rng: &mut Rng, sink: &mut Sink, w: [usize; 4], cap: usize,
             }
             let known = if cx == Class::Live && valid_before && op == "rm" { known_exception(&s.a, op, x, None) } else { None };
             if known.is_some() && avoid_known && !rng.chance(1, 8) { sink.stat("skipped.known-exit"); return; }
+            s.ref_note(cx == Class::Live, known.is_some());
             if op != "det" && cx != Class::Live && cx != Class::Stale { s.double_free = true; sink.stat("double-free-call"); }
             let r = guarded(|| call1(op, x, &mut s.a));
             let res = if r.is_some() { "ok" } else { "panic" };
@@ -492,6 +506,7 @@ fn step(s: &mut Sess, rng: &mut Rng, sink: &mut Sink, w: [usize; 4], cap: usize,
                 let o = op.to_string();
                 if !terminates(&s.a, move |a| { let _ = call2(&o, x, y, a); }) {
                     sink.stat(&format!("diverge.{}.{}-{}", op, class_name(cx), class_name(cy)));
+                    s.ref_live = false;
                     s.push(format!("div {}", req), "diverge".to_string());
                     s.stop = true;
                     return;
@@ -500,6 +515,8 @@ fn step(s: &mut Sess, rng: &mut Rng, sink: &mut Sink, w: [usize; 4], cap: usize,
             let all_live = cx == Class::Live && cy == Class::Live && valid_before;
             let known = if all_live { known_exception(&s.a, op, x, Some(y)) } else { None };
             if known.is_some() && avoid_known && !rng.chance(1, 8) { sink.stat("skipped.known-exit"); return; }
+            s.ref_note(cx == Class::Live && cy == Class::Live,
+                matches!(known, Some("sibling-insert-of-ancestor") | Some("sibling-insert-next-to-root")));
             let before = format!("{:?}", s.a);
             let checked = !op.starts_with('u');
             let r: Option<Result<(), indextree::NodeError>> = guarded(|| call2(op, x, y, &mut s.a));
@@ -534,6 +551,8 @@ fn step(s: &mut Sess, rng: &mut Rng, sink: &mut Sink, w: [usize; 4], cap: usize,
         "set" => {
             let x = match s.arg(rng, [4, 2, 2, 1]) { Some(x) => x, None => return };
             let v = rng.below(1000) as u32;
+            let live = s.classify(x) == Class::Live;
+            s.ref_note(live, false);
             let r = guarded(|| { *s.a.get_mut(x).unwrap().get_mut() = v; });
             s.push(format!("set {} {}", wid(x), v), format!("{} {}", if r.is_some() { "ok" } else { "panic" }, dump(&s.a)));
         }
@@ -559,6 +578,9 @@ fn finish(s: Sess, sink: &mut Sink) {
     sink.stat(if s.corrupt_steps > 0 { "history.left-list-semantics" } else { "history.valid-throughout" });
     sink.stat_n("calls", s.reqs.len() as u64);
     sink.emit(format!("arena hist {}", s.reqs.join(" ; ")), s.resps.join(" ; "));
+    // the same history again: refinement to the forest model, checked by the model side at run time
+    sink.stat_n("refine.calls-checked", s.ref_checked as u64);
+    sink.emit(format!("arena refine {}", s.reqs.join(" ; ")), format!("ok {}", s.ref_checked));
 }
 
 fn history(rng: &mut Rng, sink: &mut Sink, profile: usize) {
@@ -580,6 +602,7 @@ fn history(rng: &mut Rng, sink: &mut Sink, profile: usize) {
         let mut last = None;
         for _ in 0..k { let id = s.a.new_node(7); id.remove(&mut s.a); last = Some(id); }
         s.ids.push(last.unwrap());
+        s.ref_live = false;
         s.push(format!("churn {} 7", k), format!("ok {} {}", wid(last.unwrap()), dump(&s.a)));
         s.after_mutation(sink, "churn");
         sink.stat(&format!("churn.{}", k));
@@ -613,20 +636,27 @@ fn directed(sink: &mut Sink) {
                     for cmd in b.iter() {
                         let p: Vec<&str> = cmd.split(' ').collect();
                         match p[0] {
-                            "new" => { let v = s.ids.len() as u32; let id = s.a.new_node(v); s.ids.push(id);
+                            "new" => { let v = s.ids.len() as u32; let id = s.a.new_node(v); s.ids.push(id); s.ref_note(true, false);
                                 s.push(format!("new {}", v), format!("ok {} {}", wid(id), dump(&s.a))); }
                             "app" => { let (x, y) = (s.ids[p[1].parse::<usize>().unwrap()], s.ids[p[2].parse::<usize>().unwrap()]);
+                                s.ref_note(true, false);
                                 let _ = x.checked_append(y, &mut s.a);
                                 s.push(format!("app {} {}", wid(x), wid(y)), format!("ok {}", dump(&s.a))); }
-                            "rm" => { let x = s.ids[p[1].parse::<usize>().unwrap()]; x.remove(&mut s.a);
+                            "rm" => { let x = s.ids[p[1].parse::<usize>().unwrap()]; s.ref_note(true, false); x.remove(&mut s.a);
                                 s.push(format!("rm {}", wid(x)), format!("ok {}", dump(&s.a))); }
-                            _ => { let x = s.ids[p[1].parse::<usize>().unwrap()]; x.remove_subtree(&mut s.a);
+                            _ => { let x = s.ids[p[1].parse::<usize>().unwrap()]; s.ref_note(true, false); x.remove_subtree(&mut s.a);
                                 s.push(format!("rms {}", wid(x)), format!("ok {}", dump(&s.a))); }
                         }
                     }
                     let (x, y) = (s.ids[i], s.ids[j]);
                     let req = if unary { format!("{} {}", op, wid(x)) } else { format!("{} {} {}", op, wid(x), wid(y)) };
                     let o = op.to_string();
+                    {
+                        let (cx, cy) = (s.classify(x), if unary { Class::Live } else { s.classify(y) });
+                        let all_live = cx == Class::Live && cy == Class::Live;
+                        let known = if all_live && validate(&s.a) { known_exception(&s.a, op, x, if unary { None } else { Some(y) }) } else { None };
+                        s.ref_note(all_live, matches!(known, Some("sibling-insert-of-ancestor") | Some("sibling-insert-next-to-root") | Some("remove-root-with-children")));
+                    }
                     if !terminates(&s.a, move |a| { if unary { call1(&o, x, a) } else { let _ = call2(&o, x, y, a); } }) {
                         sink.stat(&format!("directed.{}.diverge", op));
                         s.push(format!("div {}", req), "diverge".to_string());
